@@ -378,6 +378,31 @@ def many_blobs_corpus(ctx):
             one_case(ctx, pred, ref, cfg, f"corpus.many-blobs-{rows * cols}", fixed=fixed)
 
 
+def count_boundary_corpus(ctx):
+    """exactly 255 / 256 / 257 separate blobs on a grid (the library chooses the instance maps' dtype from the count), one of them — the
+    last in scan order — predicted badly; mirrored and transposed, so that another blob becomes the last one"""
+    for n in ((256,) if ctx.quick else (255, 256, 257)):
+        side = 17
+        ref = np.zeros((side * 4, side * 4), np.uint8)
+        pred = np.zeros_like(ref)
+        k = 0
+        for i in range(side):
+            for j in range(side):
+                if k >= n:
+                    break
+                ref[i * 4:i * 4 + 3, j * 4:j * 4 + 3] = 1
+                pred[i * 4:i * 4 + 3, j * 4:j * 4 + 3] = 1
+                k += 1
+                li, lj = i, j
+        pred[li * 4 + 2, lj * 4:lj * 4 + 3] = 0           # the last blob loses a row (IoU 2/3)
+        fixed = []
+        for desc, f in (({"flip": [0]}, lambda a: np.flip(a, 0)), ({"flip": [1]}, lambda a: np.flip(a, 1)), ({"perm": [1, 0]}, lambda a: a.T),
+                        ({"flip": [0, 1]}, lambda a: np.flip(a, (0, 1)))):
+            fixed.append((np.ascontiguousarray(f(pred)), np.ascontiguousarray(f(ref)), dict(desc, layout="C", layout_ref="C")))
+        ctx.count("component_count_at_dtype_boundary")
+        one_case(ctx, pred, ref, E.mk_cfg("SEMANTIC", ["IOU", "DSC"], matcher=E.naive("IOU", (1, 2))), f"corpus.count-boundary-{n}", fixed=fixed)
+
+
 def special_pair(rng):
     """(a) a volume with an axis of length one whose blobs touch only across corners / edges; (b) a volume without
     any background voxel carrying two or three class values"""
@@ -424,6 +449,7 @@ def run(ctx):
     corpus(ctx)
     singleton_axis_corpus(ctx)
     many_blobs_corpus(ctx)
+    count_boundary_corpus(ctx)
     huge_padding(ctx, ctx.scale(3, 12))
     big_canvas(ctx, ctx.scale(2, 8))
     big_instance(ctx, ctx.scale(1, 3))
